@@ -192,12 +192,30 @@ func init() {
 		if plain {
 			w = plainWriter{&buf}
 		}
+		// one URL OBJECT for the primary (resp. manifest) URL and for the exchange that has the same URL, as callers naturally build it
+		for _, e := range b.Exchanges {
+			if b.PrimaryURL != nil && e.Request.URL != nil && e.Request.URL.String() == b.PrimaryURL.String() {
+				b.PrimaryURL = e.Request.URL
+			}
+			if b.ManifestURL != nil && e.Request.URL != nil && e.Request.URL.String() == b.ManifestURL.String() {
+				b.ManifestURL = e.Request.URL
+			}
+		}
+		before := showBundle(b)
 		n, err := b.WriteTo(w)
 		if err != nil {
 			return "err"
 		}
 		if n != int64(buf.Len()) {
 			return fmt.Sprintf("count-mismatch %d %d", n, buf.Len())
+		}
+		// WriteTo is an observer of the bundle, and writing the same bundle again gives the same bytes
+		if after := showBundle(b); after != before {
+			return "input-modified-by-write"
+		}
+		var again bytes.Buffer
+		if _, err := b.WriteTo(&again); err != nil || !bytes.Equal(again.Bytes(), buf.Bytes()) {
+			return "second-write-differs"
 		}
 		return "ok " + toHex(buf.Bytes())
 	}
